@@ -112,7 +112,10 @@ def setup(it, variant):
     for p in (out_path, rms_path, time_path):
         fs_.exists[p.key] = True
         fs_.size[p.key] = SV(z3.Int(fresh_name("size")))
-    satfile = A.fresh_array("satfile", "bool", (ns,))
+    # the per-sample saturation file holds the samples of the runs appended before this one (sat_off of them), then this run's
+    sat_off = z3.Int("saturation_offset")
+    it.ctx.assume(sat_off >= 0)
+    satfile = A.fresh_array("satfile", "bool", (sat_off + ns,))
     h = {"sample_shift": A.fresh_array("sample_shift", "float64", (ncv,)), "x": A.fresh_array("hx", "float64", (ncv,)), "y": A.fresh_array("hy", "float64", (ncv,))}
     rms_offset, time_offset, ns2add = z3.Ints("rms_offset time_offset ns2add")
     it.ctx.assume(z3.And(rms_offset >= 0, time_offset >= 0, ns2add >= 0))
@@ -120,7 +123,7 @@ def setup(it, variant):
     env.vars.update(dict(
         sr_file="REC", reader_kwargs={}, file_saturation="SATFILE", CHUNK_SIZE=SV(CHUNK), NBATCH=SV(NB), SAMPLES_TAPER=TAPER, ncv=SV(ncv), pyfftw=PyfftwStub,
         output_file=out_path, offset=SV(offset), nc_out=SV(nc_out), compute_rms=variant.get("compute_rms", True), ap_rms_file=rms_path, ap_time_file=time_path,
-        rms_offset=SV(rms_offset), time_offset=SV(time_offset), taper=A.fresh_array("taper", "float64", (2 * TAPER,)), sos="SOS", h=h, sr=sr,
+        rms_offset=SV(rms_offset), time_offset=SV(time_offset), saturation_offset=SV(sat_off), taper=A.fresh_array("taper", "float64", (2 * TAPER,)), sos="SOS", h=h, sr=sr,
         DEPHAS=A.fresh_array("DEPHAS", "complex64", (ncv, NB / 2 + 1)), reject_channels=variant.get("reject", False),
         channel_labels=A.fresh_array("labels", "float64", (ncv,)), spatial_fcn=models.SymCallable(lambda x: same_shape_summary("spatial")(it, [x], {})),
         t0=SV(z3.Real("t0")), wrot=(A.fresh_array("wrot", "float64", (ncv, ncv)) if variant.get("wrot") else None), dtype=out_dt.type, ns2add=SV(ns2add)))
@@ -151,7 +154,7 @@ def setup(it, variant):
     before = inner.body[:inner.body.index(loop)]
     after = inner.body[inner.body.index(loop) + 1:]
     assert not after, "my_function: statements after the loop are not covered"
-    sym = dict(item=out_dt.itemsize, out_dt=out_dt, ns=ns, nc=nc, ncv=ncv, NB=NB, CHUNK=CHUNK, ichunk=ichunk, nchunk=nchunk, offset=offset, nc_out=nc_out, TAPER=TAPER, raw=raw, satfile=satfile,
+    sym = dict(sat_off=sat_off, item=out_dt.itemsize, out_dt=out_dt, ns=ns, nc=nc, ncv=ncv, NB=NB, CHUNK=CHUNK, ichunk=ichunk, nchunk=nchunk, offset=offset, nc_out=nc_out, TAPER=TAPER, raw=raw, satfile=satfile,
                rms_offset=rms_offset, time_offset=time_offset, ns2add=ns2add, rate=rate, out=out_path, rms=rms_path, time=time_path, sr=sr)
     return fenv, before, loop, sym
 
@@ -239,9 +242,9 @@ def run_batch(H, variant, tag):
                       "the sync channel is copied bit for bit", assume=False)
         sc = getattr(it.ctx, "sat_call", None)
         it.ctx.oblige(f"sat.slice.{tag}", z3.And(z3.BoolVal(sc is not None), A.forall([t], lambda: z3.And(
-            z3.Implies(z3.And(t >= first, t < last), y["satfile"].read((t,)) == sc["sat"].read((t - first,))),
-            z3.Implies(z3.And(t >= 0, t < ns, z3.Or(t < first, t >= last)), y["satfile"].read((t,)) == satbefore((t,)))))) if sc else z3.BoolVal(False), "post",
-            "the saturation file gets this batch's flags at [first_s, last_s) and nothing else", assume=False)
+            z3.Implies(z3.And(t >= first, t < last), y["satfile"].read((y["sat_off"] + t,)) == sc["sat"].read((t - first,))),
+            z3.Implies(z3.And(t >= -y["sat_off"], t < ns, z3.Or(t < first, t >= last)), y["satfile"].read((y["sat_off"] + t,)) == satbefore((y["sat_off"] + t,)))))) if sc else z3.BoolVal(False), "post",
+            "the saturation file gets this batch's flags at the entries of samples [first_s, last_s) of this run (after the entries of the runs appended before) and nothing else", assume=False)
         if sc and len(sc["data_shape"]) == 2:
             s2v_ = z3.Real("s2v")
             it.ctx.oblige(f"sat.sees_the_batch_as_read.{tag}", z3.And(A.T(sc["data_shape"][0]) == ncv, A.T(sc["data_shape"][1]) == last - first,
@@ -271,6 +274,28 @@ def run_batch(H, variant, tag):
             else:
                 it.ctx.oblige(f"pad.none.{tag}", z3.Not(want_pad), "post")
     S.explore(body)
+
+
+def _sat_entries(it, tag, saved, env, ns, append, prev_exists, n_prev, old_sat):
+    """the saturation file after the set-up part: one entry per sample of the output file - the entries of the runs appended before (kept), then ns new ones"""
+    ok = len(saved) == 1 and isinstance(saved[0][1], SArr) and saved[0][1].dtype.kind == "b"
+    if not ok:
+        it.ctx.oblige(f"setup.saturation_file_one_entry_per_sample.{tag}", z3.BoolVal(False), "post", "the saturation file is saved once, as a boolean vector")
+        return
+    arr = saved[0][1]
+    off = env.vars.get("saturation_offset")
+    off_t = term(off) if isinstance(off, (SV, int)) else None
+    q = z3.Int("q")
+    if append:
+        keep = z3.And(A.T(arr.shape[0]) == n_prev + ns, A.forall([q], lambda: z3.Implies(z3.And(q >= 0, q < n_prev), arr.read((q,)) == old_sat.read((q,)))))
+        fresh = A.T(arr.shape[0]) == ns
+        it.ctx.oblige(f"setup.saturation_file_one_entry_per_sample.{tag}", z3.If(prev_exists, keep, fresh), "post",
+                      "appending: the entries of the runs already in the output file are kept and one entry per sample of this run is added after them (nothing to keep if there is no file yet)", assume=False)
+        it.ctx.oblige(f"setup.saturation_offset.{tag}", (off_t == z3.If(prev_exists, n_prev, z3.IntVal(0))) if off_t is not None else z3.BoolVal(False), "post",
+                      "the batches of this run write after the entries of the earlier runs", assume=False)
+    else:
+        it.ctx.oblige(f"setup.saturation_file_one_entry_per_sample.{tag}", A.T(arr.shape[0]) == ns, "post", "without append: one boolean entry per sample of the input", assume=False)
+        it.ctx.oblige(f"setup.saturation_offset.{tag}", (off_t == 0) if off_t is not None else z3.BoolVal(False), "post", assume=False)
 
 
 def replay_setup(vals, oid):
@@ -336,8 +361,15 @@ def h_setup(H):
             if len(i_rms) != 1 or len(i_app) != 1:
                 raise I.Unsupported("cannot identify the statements that create the quality files / size the output in decompress_destripe_cbin()")
             # the saturation file the batches write their flags to: created by top-level statements of the set-up part (inside or before the rms block)
+            n_prev = z3.Int("entries_of_earlier_runs")
+            prev_exists = z3.Bool("saturation_file_exists")
+            it.ctx.assume(n_prev >= 0)
+            sat_path = fsmodel.GhostPath(fs_, ("out",), "_iblqc_ephysSaturation.samples.npy")
+            fs_.exists[sat_path.key] = SV(prev_exists)
+            old_sat = A.fresh_array("saturation_of_earlier_runs", "bool", (n_prev,))
+            it.session.contracts[np.load] = lambda it_, a, k: old_sat
             for i_, t_ in enumerate(src):
-                if i_ < i_rms[0] and "file_saturation" in t_ and not t_.startswith(("if ", "def ")):
+                if i_ < i_rms[0] and "file_saturation" in t_ and not t_.startswith("def "):
                     it.exec_stmt(node.body[i_], env)
             it.exec_stmt(node.body[i_rms[0]], env)
             it.exec_stmt(node.body[i_app[0]], env)
@@ -347,7 +379,7 @@ def h_setup(H):
                               "compute_rms=False: the per-sample saturation file every batch writes to is still created (the workers open it unconditionally)")
                 trunc = {op[1] for op in fs_.log if op[0] == "open_w"}
                 it.ctx.oblige(f"setup.fresh_run_starts_empty.{tag}", z3.BoolVal(fsmodel.GhostPath(fs_, ("out",), "destriped.bin").key in trunc), "post")
-                it.ctx.oblige(f"setup.saturation_file_one_entry_per_sample.{tag}", z3.BoolVal(len(saved) == 1 and isinstance(saved[0][1], SArr) and saved[0][1].dtype.kind == "b") and (A.T(saved[0][1].shape[0]) == ns if len(saved) == 1 and isinstance(saved[0][1], SArr) else z3.BoolVal(False)), "post", assume=False)
+                _sat_entries(it, tag, saved, env, ns, append, prev_exists, n_prev, old_sat)
                 return
             trunc = {op[1] for op in fs_.log if op[0] == "open_w"}
             keys = {nm: fsmodel.GhostPath(fs_, ("out",), nm).key for nm in sizes}
@@ -361,8 +393,7 @@ def h_setup(H):
                 ok = all(g(nm) is not None for nm in ("offset", "rms_offset", "time_offset"))
                 it.ctx.oblige(f"setup.append_offsets.{tag}", z3.And(g("offset") == sizes["destriped.bin"], g("rms_offset") == sizes["ap_rms.bin"], g("time_offset") == sizes["ap_time.bin"]) if ok else z3.BoolVal(False), "post",
                               "and starts each at its current end", assume=False)
-            it.ctx.oblige(f"setup.saturation_file_one_entry_per_sample.{tag}", z3.BoolVal(len(saved) == 1 and isinstance(saved[0][1], SArr) and saved[0][1].dtype.kind == "b") and (A.T(saved[0][1].shape[0]) == ns if len(saved) == 1 and isinstance(saved[0][1], SArr) else z3.BoolVal(False)), "post",
-                          "the saturation file is created with one boolean entry per sample of the input", assume=False)
+            _sat_entries(it, tag, saved, env, ns, append, prev_exists, n_prev, old_sat)
         S.explore(body)
 
 
@@ -547,6 +578,35 @@ def b_native(B):
             outs.append(np.fromfile(os.path.join(od, "out.bin"), dtype=np.int16))
         okw = outs[0].shape == outs[1].shape == (12000 * 385,) and np.array_equal(outs[0], outs[1])
         B.case("scalar_whitening_equals_scaled_identity", bool(okw), detail={"sizes": [int(o.size) for o in outs], "differing": int(np.sum(outs[0] != outs[1])) if outs[0].shape == outs[1].shape else -1}, inputs={"kind": "wrot_scalar"})
+    finally:
+        shutil.rmtree(d, ignore_errors=True)
+    # append mode: a second recording destriped after a first one into the same file: sizes add up, RMS rows add up, and the saturation file has one entry per
+    # sample of the concatenated output - the first run's flags kept, the second run's flags after them
+    d = tempfile.mkdtemp(prefix="c06_")
+    try:
+        d1, d2 = os.path.join(d, "a"), os.path.join(d, "b")
+        os.makedirs(d1)
+        os.makedirs(d2)
+        ap1, x1 = _mk_rec(d1, 20000, rng, nbatch=8192)
+        ap2, x2 = _mk_rec(d2, 12000, rng, nbatch=8192)
+        od = os.path.join(d, "out")
+        os.makedirs(od)
+        out = os.path.join(od, "out.bin")
+        with joblib.parallel_backend("threading"):
+            V.decompress_destripe_cbin(ap1, output_file=out, nbatch=8192, nprocesses=2, reject_channels=False)
+            s1 = np.load(os.path.join(od, "_iblqc_ephysSaturation.samples.npy")).copy()
+            V.decompress_destripe_cbin(ap2, output_file=out, nbatch=8192, nprocesses=2, reject_channels=False, append=True)
+        sat = np.load(os.path.join(od, "_iblqc_ephysSaturation.samples.npy"))
+        rms = np.load(os.path.join(od, "_iblqc_ephysTimeRmsAP.rms.npy"))
+        y = np.fromfile(out, dtype=np.int16)
+        srb = spikeglx.Reader(ap2)
+        want2 = V.saturation((x2[:, :384].astype(np.float32) * srb.sample2volts[:384]).T, max_voltage=srb.range_volts[:384], fs=srb.fs)[0]
+        srb.close()
+        oka = y.size == 32000 * 385 and np.array_equal(y.reshape(32000, 385)[:, -1], np.r_[x1[:, -1], x2[:, -1]]) and rms.shape[0] == 5
+        oks = sat.shape == (32000,) and np.array_equal(sat[:20000], s1) and np.array_equal(sat[20000:].astype(bool), want2)
+        B.case("append_concatenates_output_and_rms", bool(oka), detail={"output_samples": int(y.size // 385), "rms_rows": int(rms.shape[0])}, inputs={"kind": "append_run"})
+        B.case("append_saturation_one_entry_per_output_sample", bool(oks), detail={"saturation_entries": list(sat.shape), "output_samples": int(y.size // 385), "first_run_kept": bool(sat.size >= 20000 and np.array_equal(sat[:20000], s1))},
+               inputs={"kind": "append_saturation"})
     finally:
         shutil.rmtree(d, ignore_errors=True)
     badf = native_destripe(rng, 20000, 8192, (1, 3) if B.tier == "quick" else (1, 2, 3, 5), False, out_dtype=np.float32)
